@@ -258,6 +258,8 @@ def run_fit(case):
             # an uncertainty proportional to a value that (nearly) vanishes makes the covariance nearly singular there: the cost surface has
             # poles close to the optimum and the backends' scan algorithms are not expected to cope
             raise Discard("relative uncertainty on values close to zero (not well-posed)")
+    if ref.x_errors_too_large(tb) and not case.get("allow_poorly_determined"):
+        raise Discard("x uncertainties exceed half the spacing of the points (jagged cost surface; not well-posed)")
     spec["start"] = {nm: tb[nm] + (v - tb[nm]) * 0.5 for nm, v in spec["start"].items()}
     try:
         xr, fr, cost_free = reference_minimum(ref, spec, free, fixed_vals)
